@@ -6,7 +6,7 @@
    over the regenerated signExtend.  Spec/C14.v: an encoding v of format (1,i,f), w = 1+i+f, denotes sgn w v / 2^f.
    `wf F`  = one sign bit, non-negative integer and fraction sizes;  `enc F v` = 0 <= v < 2^w (what a wire can hold, C06).
    `None` = the exception the real constructor / propagate raises. *)
-From V Require Import Base.Bits Gen.Prims Model.Fxp Model.FxpHelper Spec.C14
+From V Require Import Base.Bits Gen.Prims Model.Fxp Model.FxpHelper Spec.C14 Spec.C14Q
   Proofs.C14.Prims Proofs.C14.Blocks Proofs.C14.Helper.
 
 (* adder / subtractor: encoding of the exact sum / difference, modulo 2^w; every format, every pair of operands *)
